@@ -54,6 +54,9 @@ pub enum Op {
     /// from the loop body after item `abandon_at`. One inc per item; the end of the iterator finishes the
     /// bar the stored way only when it is not finished yet
     IterDrain { items: u8, abandon_at: Option<u8>, extra: u8 },
+    /// wrap_async_read(..).poll_read into a ReadBuf that already holds `.0` bytes, over a source of `.1`
+    /// bytes: as many incs as bytes were appended by this poll
+    AsyncReadPrefilled(u8, u8),
 }
 
 #[derive(Debug, Clone, Serialize, Deserialize)]
@@ -98,6 +101,7 @@ fn op_strategy() -> BoxedStrategy<Op> {
             Just(Op::SetStyle), (0u8..12).prop_map(Op::SetTabWidth), Just(Op::ForceDraw), Just(Op::CloneAndDrop), any::<u8>().prop_map(Op::SeekCurrentZero)
         ],
         1 => (0u8..20, 0u8..40).prop_map(|(a, b)| Op::ReadToString(a, b)),
+        1 => (0u8..20, 0u8..40).prop_map(|(a, b)| Op::AsyncReadPrefilled(a, b)),
         2 => (0u8..6, proptest::option::weighted(0.4, 0u8..6), 0u8..3).prop_map(|(items, abandon_at, extra)| Op::IterDrain { items, abandon_at, extra }),
     ]
     .boxed()
@@ -182,6 +186,18 @@ fn run_hist(c: &HistCase) -> CaseResult {
                 let got = pb.wrap_read(std::io::Cursor::new(vec![b'a'; *n as usize])).read_to_string(&mut text).expect("cursor read");
                 assert_eq!(got, *n as usize);
             }
+            Op::AsyncReadPrefilled(have, n) => {
+                use tokio::io::AsyncRead;
+                let data = vec![b'd'; *n as usize];
+                let mut rd = pb.wrap_async_read(&data[..]);
+                let mut storage = vec![0u8; *have as usize + *n as usize + 3];
+                let mut buf = tokio::io::ReadBuf::new(&mut storage);
+                buf.put_slice(&vec![b'x'; *have as usize]);
+                let mut cx = std::task::Context::from_waker(std::task::Waker::noop());
+                let r = std::pin::Pin::new(&mut rd).poll_read(&mut cx, &mut buf);
+                assert!(matches!(r, std::task::Poll::Ready(Ok(()))));
+                assert_eq!(buf.filled().len(), *have as usize + *n as usize);
+            }
             Op::IterDrain { items, abandon_at, extra } => {
                 let mut it = pb.wrap_iter(0..*items);
                 let mut j = 0u8;
@@ -208,7 +224,7 @@ fn run_hist(c: &HistCase) -> CaseResult {
             Op::Dec(d) => pos = pos.wrapping_sub(*d),
             Op::SetPos(p) | Op::UpdateSetPos(p) => pos = *p,
             Op::SeekCurrentZero(k) => pos = *k as u64,
-            Op::ReadToString(_, n) => pos = pos.wrapping_add(*n as u64),
+            Op::ReadToString(_, n) | Op::AsyncReadPrefilled(_, n) => pos = pos.wrapping_add(*n as u64),
             Op::IterDrain { items, abandon_at, .. } => {
                 pos = pos.wrapping_add(*items as u64);
                 if matches!(abandon_at, Some(j) if j < items) {
@@ -313,6 +329,7 @@ fn run_hist(c: &HistCase) -> CaseResult {
     v.label_if(c.ops.iter().any(|o| matches!(o, Op::ResetEta | Op::ResetElapsed)), "unrelated_calls_interleaved");
     v.label_if(c.ops.iter().any(|o| matches!(o, Op::ReadToString(h, n) if *h > 0 && *n > 0)), "read_to_string_appending");
     v.label_if(c.ops.iter().any(|o| matches!(o, Op::IterDrain { .. })), "iterator_adaptor_drained");
+    v.label_if(c.ops.iter().any(|o| matches!(o, Op::AsyncReadPrefilled(h, n) if *h > 0 && *n > 0)), "async_read_into_partly_filled_buffer");
     Ok(v)
 }
 
@@ -521,12 +538,12 @@ pub fn property() -> Property {
         parts: vec![
             Box::new(Gen::<HistCase> {
                 name: "history",
-                rule: "0-30 (thorough 60) ops from inc/dec/set_position/update/reset/finish*/abandon*/finish_using_style/set_length/inc_length/dec_length/unset_length, the reader adaptor (seek(Current(0)), read_to_string into a non-empty String) and the iterator adaptor (drained, abandoned from the loop body, polled again after its end) with arguments from {0,1,2,2^24,2^32+-1,2^63+-1,u64::MAX-1,u64::MAX,random}, rendered with pos/len/percent/bar/bytes/eta/per_sec keys; after every op position()/length() vs wrapping/saturating model, fraction in [0,1] (1 for len 0, 0 for unknown) read through a custom key; non-trivial = the history wraps past 0 or u64::MAX",
+                rule: "0-30 (thorough 60) ops from inc/dec/set_position/update/reset/finish*/abandon*/finish_using_style/set_length/inc_length/dec_length/unset_length, the reader adaptor (seek(Current(0)), read_to_string into a non-empty String), the tokio reader adaptor polled into a partly filled ReadBuf and the iterator adaptor (drained, abandoned from the loop body, polled again after its end) with arguments from {0,1,2,2^24,2^32+-1,2^63+-1,u64::MAX-1,u64::MAX,random}, rendered with pos/len/percent/bar/bytes/eta/per_sec keys; after every op position()/length() vs wrapping/saturating model, fraction in [0,1] (1 for len 0, 0 for unknown) read through a custom key; non-trivial = the history wraps past 0 or u64::MAX",
                 strategy: hist_strategy,
                 cases: |t| t.pick(6_000, 300_000),
                 run: run_hist,
                 signature: no_signature,
-                essential: &["wrapped_u64_boundary", "reset", "finish", "len_saturating", "hidden_target", "unrelated_calls_interleaved", "read_to_string_appending", "iterator_adaptor_drained"],
+                essential: &["wrapped_u64_boundary", "reset", "finish", "len_saturating", "hidden_target", "unrelated_calls_interleaved", "read_to_string_appending", "iterator_adaptor_drained", "async_read_into_partly_filled_buffer"],
                 workers: w,
                 decode: Some(decode_hist),
             }),
